@@ -99,7 +99,11 @@ def case_filter(rnd):
     which = rnd.choice(['pred-one', 'pred-two', 'pred-id', 'keep', 'drop', 'stacked'])
     # predicates see field VALUES; the value of image for id i is the string $s001('i')
     sympool.TABLE['t001'] = lambda image: truth[image.split("'")[1]]
-    sympool.TABLE['t002'] = lambda mask, image: truth[image.split("'")[1]] and truth2[mask.split("'")[1]]
+    def both(mask, image):
+        # the predicate is bound to the fields by argument NAME: each argument must carry the value of its own field
+        assert image.startswith('$s001(') and mask.startswith('$s002('), (mask, image)
+        return truth[image.split("'")[1]] and truth2[mask.split("'")[1]]
+    sympool.TABLE['t002'] = both
     sympool.TABLE['t003'] = lambda id: truth[id]
     sympool.TABLE['t004'] = lambda mask: truth2[mask.split("'")[1]]
     src = source(ids, fields)
@@ -171,6 +175,8 @@ def case_join(rnd):
     dup = rnd.random() < 0.2
     def side(prefix, n):
         ids = [f'{prefix}{i}' for i in range(n)]
+        if ids and rnd.random() < 0.3:
+            ids[rnd.randrange(n)] = ''          # a falsy id is an id like any other
         keys = {}
         pool = kvals[:]
         rnd.shuffle(pool)
